@@ -120,6 +120,17 @@ def _one(c, r):
             for red in (True, False):
                 for ka in (True, False):
                     dets.append({"kind": "poynting", "name": f"pl{pa}{d}{int(red)}{int(ka)}", "lo": plo, "hi": phi, "axis": pa, "direction": d, "reduce": red, "keep_all": ka, "exact": exact})
+    # forward / inverse twins of the other phasor-type detectors (plane flux, closed surface), judged at update level
+    t_end = c["steps"] * 0.99 * 50e-9 / (3**0.5 * 299792458.0)
+    win = [
+        None,
+        {"kind": "gaussian", "center_time": 0.5 * t_end, "sigma_time": 0.3 * t_end},
+        {"kind": "tukey", "start_time": 0.0, "end_time": t_end, "alpha": 0.5},
+    ][int(rng.integers(3))]
+    for nm, inv in (("pp_f", False), ("pp_i", True)):
+        dets.append({"kind": "phasor_poynting", "name": nm, "lo": planes[1][0], "hi": planes[1][1], "axis": 1, "direction": "+", "wavelengths": [wl, wl * 0.8], "exact": exact, "inverse": inv, "window": win})
+    for nm, inv in (("cpp_f", False), ("cpp_i", True)):
+        dets.append({"kind": "closed_phasor_poynting", "name": nm, "lo": lo, "hi": hi, "wavelengths": [wl, wl * 0.8], "exact": exact, "inverse": inv, "window": win})
     # spatial all-component flux over the whole box: independent reference for the closed surface
     dets.append({"kind": "poynting", "name": "box_all", "lo": lo, "hi": hi, "axis": 0, "direction": "+", "reduce": False, "keep_all": True, "exact": exact})
     s["detectors"] = dets
@@ -203,4 +214,32 @@ def _one(c, r):
         a_i = pi.update(tt, E, H, st0, ie, 1.0)["phasor"]
         rel("inverse_phasor_subtracts_what_forward_adds", np.asarray(a_i - st0["phasor"]), -np.asarray(a_f - st0["phasor"]))
     r.branch("inverse_phasor_judged")
+    # the same relation for the phasor flux detectors: every state array of the inverse twin moves by exactly minus
+    # what the forward twin's moves, from the same random state
+    for fn, iname, (dlo, dhi) in (("pp_f", "pp_i", planes[1]), ("cpp_f", "cpp_i", (lo, hi))):
+        df, di = placed[fn], placed[iname]
+        dshape = tuple(h - l for l, h in zip(dlo, dhi))
+        tmpl = fwd[1].detector_states[fn]
+        for _ in range(2):
+            E = jnp.asarray(rng.standard_normal((3, *dshape)))
+            H = jnp.asarray(rng.standard_normal((3, *dshape)))
+            st0 = {}
+            for k_, v_ in tmpl.items():
+                v_ = np.asarray(v_)
+                x = rng.standard_normal(v_.shape)
+                if np.iscomplexobj(v_):
+                    x = x + 1j * rng.standard_normal(v_.shape)
+                st0[k_] = jnp.asarray(x.astype(v_.dtype))
+            tt = jnp.asarray(int(rng.integers(0, T)), dtype=jnp.int32)
+            ie = fwd[1].inv_permittivities[:, dlo[0] : dhi[0], dlo[1] : dhi[1], dlo[2] : dhi[2]]
+            a_f = df.update(tt, E, H, dict(st0), ie, 1.0)
+            a_i = di.update(tt, E, H, dict(st0), ie, 1.0)
+            for k_ in st0:
+                rel(
+                    "inverse_phasor_subtracts_what_forward_adds",
+                    np.asarray(a_i[k_] - st0[k_]),
+                    -np.asarray(a_f[k_] - st0[k_]),
+                )
+                r.count("inverse_flux_phasor_state_arrays_judged")
+    r.branch("inverse_phasor_flux_detectors_judged")
     r.sample = wit
